@@ -13,6 +13,7 @@ pub mod c01;
 pub mod c02;
 #[cfg(feature = "sodium")]
 pub mod c03;
+pub mod c04;
 #[cfg(feature = "sodium")]
 pub mod c05;
 #[cfg(feature = "sodium")]
@@ -33,6 +34,7 @@ pub fn dispatch(name: &str, cx: &mut Ctx) -> bool {
         "c17" => c02::run_c17(cx),
         #[cfg(feature = "sodium")]
         "c03" => c03::run(cx),
+        "c04" => c04::run(cx),
         #[cfg(feature = "sodium")]
         "c05" => c05::run(cx),
         #[cfg(feature = "sodium")]
